@@ -3,6 +3,7 @@
 package ojg
 
 import (
+	"strings"
 	"unicode/utf8"
 )
 
@@ -118,7 +119,8 @@ func AppendSENString(buf []byte, s string, htmlSafe bool) []byte {
 	}
 	b0 := len(buf)
 	m := senMap[s[0]]
-	quote := maxTokenLen < len(s) || (m != 'o' && m != '8' && !(!htmlSafe && m == 'h'))
+	quote := maxTokenLen < len(s) || (m != 'o' && m != '8' && !(!htmlSafe && m == 'h')) ||
+		strings.HasPrefix(s, "\ufeff") // would be read as a byte order mark at the start of a document
 	buf = append(buf, '"')
 	start := 0
 	skip := 0
